@@ -82,9 +82,19 @@ def _replay_many(items):
     return out
 
 
+# the threaded runs also compute normalized paths (long names with characters that need escaping keep the
+# serialiser busy) and go through queries with function calls whose arguments take a while
+_LONG = "a rather long member name with 'quotes', \\ backslashes and \n control characters " * 2
+TDOCS = dict(DOCS, dl={_LONG + "1": {_LONG + "2": [1, {_LONG + "3": 2}], "x": 1}, _LONG + "4": [{"a": 1}, {_LONG: 2}], "x": 1},
+             dw=[{"a": [k, {"a": k}], "b": {"a": [k]}} for k in range(6)])
+TQUERIES = dict(QUERIES, lq="$..*", cq="$[?count(@..a) > 1 && length(@.a) == 2]", vq="$[?count(@..a) > 0 || count($..a) > 3]",
+                vq2="$[?count(@..*) > count(@.b..*)]", mq="$[?match(value(@.b.a), 'x') || count(@..*) == count($[0]..*)]")
+
+
 def threaded_records(jp, rng, n_threads, rounds, chk):
     """Each thread compiles and iterates on a shared environment; returns find records."""
     env = jp.JSONPathEnvironment()
+    QUERIES, DOCS = TQUERIES, TDOCS          # noqa: N806 - the threaded part has documents and queries of its own on top
     shared = {name: env.compile(q) for name, q in QUERIES.items()}
     jobs = []
     for t in range(n_threads):
@@ -108,10 +118,12 @@ def threaded_records(jp, rng, n_threads, rounds, chk):
             else:
                 it = env.finditer(QUERIES[qn], d)
             try:
-                locs = [core.enc_loc(n.location) for n in it]
-                results[t].append((qn, dn, "ok", locs, ""))
+                nodes = list(it)
+                locs = [core.enc_loc(n.location) for n in nodes]
+                paths = [core.enc_text(n.path()) for n in nodes]
+                results[t].append((qn, dn, "ok", locs, "", paths))
             except Exception as err:  # noqa: BLE001
-                results[t].append((qn, dn, "raise", [], type(err).__name__))
+                results[t].append((qn, dn, "raise", [], type(err).__name__, []))
 
     old = sys.getswitchinterval()
     sys.setswitchinterval(1e-6)
@@ -125,9 +137,9 @@ def threaded_records(jp, rng, n_threads, rounds, chk):
         sys.setswitchinterval(old)
     recs = []
     for t in range(n_threads):
-        for qn, dn, out, locs, cls in results[t]:
+        for qn, dn, out, locs, cls, paths in results[t]:
             recs.append({"op": "find", "q": core.enc_text(QUERIES[qn]), "doc": core.enc_value(DOCS[dn]), "out": out, "stage": "find",
-                         "jp": out == "ok", "cls": cls, "locs": locs, "threads": n_threads})
+                         "jp": out == "ok", "cls": cls, "locs": locs, "threads": n_threads, "paths": paths})
     return recs
 
 
